@@ -147,7 +147,7 @@ Qed.
 Lemma low_within_in (s : est) lows : low_within_surplus A s = Ok lows -> forall c, In c lows -> In c (hopefuls A s).
 Proof.
   unfold low_within_surplus. destruct (map (@cvote A) (hopefuls A s)); [discriminate|]. intros H; inversion H; subst.
-  intros c Hc. apply filter_In in Hc. exact (proj1 Hc).
+  intros c Hc. destruct (filter _ (hopefuls A s)) eqn:Ef; [|rewrite <- Ef in Hc]; apply filter_In in Hc; exact (proj1 Hc).
 Qed.
 
 Lemma f_meek_defeat_low x fmt rd s : R x s -> ND s -> R x (meek_defeat_low A cfg fmt rd s).
